@@ -10,6 +10,7 @@ whose anchor text no longer occurs in the tree is recorded as not applicable.
 
 from __future__ import annotations
 
+import json
 import os
 import time
 from concurrent.futures import ProcessPoolExecutor
@@ -540,7 +541,12 @@ def refactor_variants() -> list[dict]:
         for d in sorted(sroot.iterdir()):
             ff = d / "fixed.diff"
             if ff.exists():
-                out.append({"id": f"seeded/{d.name}#fixed", "diff": ff.read_text()})
+                # a "commit done right" may be a FEATURE: right for the property it was written against, yet a change
+                # of behaviour that another property forbids as stated (an input that must be rejected is now
+                # accepted).  fixed_expect.json lists, per property, why its report on this twin is not a false alarm.
+                fe = d / "fixed_expect.json"
+                allowed = json.loads(fe.read_text()) if fe.exists() else {}
+                out.append({"id": f"seeded/{d.name}#fixed", "diff": ff.read_text(), "allowed": allowed})
     return out
 
 
@@ -559,8 +565,11 @@ def _run_refactor(args):
     except AnalysisError as e:
         return {"id": rv["id"], "kind": "refactoring", "props": [prop or "ALL"], "status": "not-applicable", "detail": e.reason}
     bad, und = {}, {}
+    allowed = rv.get("allowed") or {}
     for p in ([prop] if prop else sorted(REGISTRY)):
         for o in evaluate(p, Cx(model, "quick")):
+            if o.status == "VIOLATED" and p in allowed:
+                continue  # a real change of behaviour under this property (reason in fixed_expect.json)
             if o.status == "VIOLATED":
                 bad[o.id] = [f.key for f in o.findings]
             elif o.status == "UNDECIDED":
